@@ -1,44 +1,53 @@
 (* C10 — field and sink failures are contained and reported; the entry is never lost.
-   Two kinds of cases:
+   Three kinds of cases:
    (0 enccase)  a field tree with one injected fault (marshaler error, Stringer/Error()
                 panic or nil receiver, value encoding/json rejects); observation (line);
    (1 hi cores entries)  a logger over a tree of cores whose sinks fail according to
-                per-entry outcome lists; observation (events errout returned).
+                per-entry outcome lists; observation (events errout returned);
+   (2 cfg ctxs cores ((hi depth entry fields) ...))  the same trees, the leaves being JSON or
+                console ioCores over one EncoderConfig, fed a sequence of full entries (any field
+                tree, any With-chain prefix); every sink call is observed WITH the bytes it was
+                handed: what the surviving cores receive after a failure is the entry, intact.
    No proofs in this file. *)
 From Coq Require Import List ZArith Bool.
 From Coq.Strings Require Import Byte.
 Import ListNotations.
-From Zap Require Import Base.Wire Enc.Bytes Enc.Fields Enc.JsonEnc Enc.JsonParse Enc.WireEnc Enc.JsonAst Enc.Wf Enc.Parse3 C02.Model.
+From Zap Require Import Base.Wire Enc.Bytes Enc.Fields Enc.JsonEnc Enc.JsonParse Enc.WireEnc Enc.JsonAst Enc.Wf Enc.Parse3 Enc.Console C02.Model.
 
 (* ---------------- sinks and cores ---------------- *)
 (* one sink call outcome for one entry: Write's error (the count is ignored by ioCore.Write),
    and Sync's error *)
 Record outcome1 := { werr : option bytes; serr : option bytes }.
 Inductive score :=
-| SLeaf (id : Z) (outs : list outcome1)      (* an ioCore over sink id; outcome for the k-th entry *)
+| SLeaf (id : Z) (con : bool) (outs : list outcome1)
+                                             (* an ioCore over sink id with its own encoder (con: console,
+                                                otherwise JSON); outcome for the k-th entry *)
 | STee (l : list score)                      (* zapcore.NewTee *)
 | SWrap (c : score).                         (* a wrapper forwarding Write to the wrapped core (hooked core) *)
-Inductive ev := EvW (id : Z) | EvS (id : Z).
+(* a sink call: Write with the bytes handed to it, or Sync *)
+Inductive ev := EvW (id : Z) (p : bytes) | EvS (id : Z).
 
 Definition out_at (outs : list outcome1) (k : nat) : outcome1 := nth k outs {| werr := None; serr := None |}.
 
-(* Core.Write for entry number k; hi = the entry's level is above Error.
-   ioCore.Write: encode, out.Write; on error return it; otherwise Sync (error ignored) when hi.
+(* Core.Write for entry number k; hi = the entry's level is above Error; line con = what an encoder
+   of that kind (with this core's accumulated context) produces for the entry.
+   ioCore.Write: buf := enc.EncodeEntry; out.Write(buf.Bytes()); buf.Free(); on error return it;
+   otherwise Sync (error ignored) when hi.
    multiCore.Write: every core, errors appended.  Returns sink events and the errors in order. *)
-Fixpoint core_write (hi : bool) (k : nat) (c : score) {struct c} : list ev * list bytes :=
+Fixpoint core_write (line : bool -> bytes) (hi : bool) (k : nat) (c : score) {struct c} : list ev * list bytes :=
   match c with
-  | SLeaf id outs =>
+  | SLeaf id con outs =>
       match werr (out_at outs k) with
-      | Some m => ([EvW id], [m])
-      | None => (EvW id :: (if hi then [EvS id] else []), [])
+      | Some m => ([EvW id (line con)], [m])
+      | None => (EvW id (line con) :: (if hi then [EvS id] else []), [])
       end
   | STee l =>
       (fix go (l : list score) : list ev * list bytes :=
          match l with
          | [] => ([], [])
-         | x :: r => let '(e1, m1) := core_write hi k x in let '(e2, m2) := go r in (e1 ++ e2, m1 ++ m2)
+         | x :: r => let '(e1, m1) := core_write line hi k x in let '(e2, m2) := go r in (e1 ++ e2, m1 ++ m2)
          end) l
-  | SWrap c => core_write hi k c
+  | SWrap c => core_write line hi k c
   end.
 
 (* CheckedEntry.Write over the cores that accepted the entry (Check: a tee lets each of its
@@ -46,32 +55,72 @@ Fixpoint core_write (hi : bool) (k : nat) (c : score) {struct c} : list ev * lis
    reported in ONE line on the error output, then the call returns *)
 Fixpoint accepted (c : score) {struct c} : list score :=
   match c with
-  | SLeaf _ _ => [c]
+  | SLeaf _ _ _ => [c]
   | STee l => (fix go (l : list score) : list score := match l with [] => [] | x :: r => accepted x ++ go r end) l
   | SWrap _ => [c]
   end.
-Definition entry_write (hi : bool) (k : nat) (c : score) : list ev * list bytes :=
-  fold_left (fun acc x => let '(e, m) := core_write hi k x in (fst acc ++ e, snd acc ++ m)) (accepted c) ([], []).
+Definition entry_write (line : bool -> bytes) (hi : bool) (k : nat) (c : score) : list ev * list bytes :=
+  fold_left (fun acc x => let '(e, m) := core_write line hi k x in (fst acc ++ e, snd acc ++ m)) (accepted c) ([], []).
 
 (* the property's reading, written independently: every sink of the tree, in order *)
-Fixpoint leaves (c : score) {struct c} : list (Z * list outcome1) :=
+Record lf := { l_id : Z; l_con : bool; l_outs : list outcome1 }.
+Fixpoint leaves (c : score) {struct c} : list lf :=
   match c with
-  | SLeaf id outs => [(id, outs)]
+  | SLeaf id con outs => [{| l_id := id; l_con := con; l_outs := outs |}]
   | STee l => (fix go (l : list score) := match l with [] => [] | x :: r => leaves x ++ go r end) l
   | SWrap c => leaves c
   end.
-Definition spec_events (hi : bool) (k : nat) (c : score) : list ev :=
-  flat_map (fun lf => match werr (out_at (snd lf) k) with
-                      | Some _ => [EvW (fst lf)]
-                      | None => EvW (fst lf) :: (if hi then [EvS (fst lf)] else [])
-                      end) (leaves c).
+(* every sink is written once, in order, with the line of its own encoder for THIS entry - whatever
+   failed before - and synced after a successful write when hi *)
+Definition spec_events (line : bool -> bytes) (hi : bool) (k : nat) (c : score) : list ev :=
+  flat_map (fun l => match werr (out_at (l_outs l) k) with
+                     | Some _ => [EvW (l_id l) (line (l_con l))]
+                     | None => EvW (l_id l) (line (l_con l)) :: (if hi then [EvS (l_id l)] else [])
+                     end) (leaves c).
 Definition spec_write_errs (k : nat) (c : score) : list bytes :=
-  flat_map (fun lf => match werr (out_at (snd lf) k) with Some m => [m] | None => [] end) (leaves c).
+  flat_map (fun l => match werr (out_at (l_outs l) k) with Some m => [m] | None => [] end) (leaves c).
 (* sync failures of sinks that were synced: the statement asks for these to be reported too *)
 Definition spec_sync_errs (hi : bool) (k : nat) (c : score) : list bytes :=
-  if hi then flat_map (fun lf => match werr (out_at (snd lf) k), serr (out_at (snd lf) k) with
-                                 | None, Some m => [m] | _, _ => [] end) (leaves c)
+  if hi then flat_map (fun l => match werr (out_at (l_outs l) k), serr (out_at (l_outs l) k) with
+                                | None, Some m => [m] | _, _ => [] end) (leaves c)
   else [].
+
+(* ---------------- the entries the sinks receive ---------------- *)
+(* what the encoder of an ioCore (JSON or console, built from cfg c, after the With chain ctxs)
+   hands to its sink for one entry *)
+Definition entry_line (c : cfg) (ctxs : list (list fld)) (ent : entry) (fs : list fld) (con : bool) : bytes :=
+  if con then console_encode c (with_chain c true ctxs) ent fs
+  else match encode_entry c false (with_chain c false ctxs) ent fs with Some out => out | None => [] end.
+(* the property's reading of "receives the entry": a JSON line decodes to exactly the reference
+   members of the entry (C01/C02); a console line is exactly the documented shape with a valid
+   JSON context (C16) *)
+Definition payload_ok (c : cfg) (ctxs : list (list fld)) (ent : entry) (fs : list fld) (con : bool) (p : bytes) : bool :=
+  if con then
+    bytes_eqb p (console_spec c ctxs ent fs) &&
+    (let ms := close (ev_flds c fs (ev_with_chain c ctxs)) in
+     match ms with
+     | [] => true
+     | _ => match parse (pv true (TObj ms)), parse (pv false (TObj ms)) with
+            | Some (JObj _), Some (JObj _) => true
+            | _, _ => false
+            end
+     end)
+  else
+    match line_obj (resolved_le c) p with
+    | Some ms => jv_eqb (JObj ms) (JObj (jv_mem (entry_members c ctxs ent fs)))
+    | None => false
+    end.
+
+(* one logged entry of a sequence: above Error?, how many With calls deep the logger it is logged
+   through was derived (a prefix of the chain), the entry, the call-site fields *)
+Record pent := { p_hi : bool; p_d : nat; p_ent : entry; p_fs : list fld }.
+Fixpoint mapi_from {A B} (f : nat -> A -> B) (k : nat) (l : list A) : list B :=
+  match l with [] => [] | x :: r => f k x :: mapi_from f (S k) r end.
+Definition pent_line (c : cfg) (ctxs : list (list fld)) (e : pent) : bool -> bytes :=
+  entry_line c (firstn (p_d e) ctxs) (p_ent e) (p_fs e).
+(* the sequence: the k-th entry is written to the tree with the outcomes of round k *)
+Definition run_seq (c : cfg) (ctxs : list (list fld)) (t : score) (es : list pent) : list (list ev * list bytes) :=
+  mapi_from (fun k e => entry_write (pent_line c ctxs e) (p_hi e) k t) 0 es.
 
 (* ---------------- wire ---------------- *)
 Definition dec_out (s : sx) : outcome1 := {| werr := dec_optb (sx_nth s 0); serr := dec_optb (sx_nth s 1) |}.
@@ -80,17 +129,22 @@ Fixpoint dec_score (fuel : nat) (s : sx) : score :=
   | O => STee []
   | S f =>
       match sx_z (sx_nth s 0) with
-      | 0%Z => SLeaf (sx_z (sx_nth s 1)) (map dec_out (sx_l (sx_nth s 2)))
+      | 0%Z => SLeaf (sx_z (sx_nth s 1)) (sx_bool (sx_nth s 3)) (map dec_out (sx_l (sx_nth s 2)))
       | 1%Z => STee (map (dec_score f) (sx_l (sx_nth s 1)))
       | _ => SWrap (dec_score f (sx_nth s 1))
       end
   end.
-Definition enc_ev (e : ev) : sx := match e with EvW id => SL [SZ 0; SZ id] | EvS id => SL [SZ 1; SZ id] end.
+(* a leaf is (0 id outs) in kind 1 and (0 id outs console? nests?) in kind 2; "nests" (the test sink
+   logs through an unrelated core during Write) is environment the code must be indifferent to: ignored.
+   kind 1 does not observe the bytes; kind 2 does *)
+Definition enc_ev (e : ev) : sx := match e with EvW id _ => SL [SZ 0; SZ id] | EvS id => SL [SZ 1; SZ id] end.
+Definition enc_evp (e : ev) : sx := match e with EvW id p => SL [SZ 0; SZ id; SB p] | EvS id => SL [SZ 1; SZ id] end.
 
 (* sink case: (1 hi core n_entries) ; observation: ((per entry: (events errcount)) ...) returned
    errcount = number of lines the error output received for that entry *)
+Definition no_line : bool -> bytes := fun _ => [].
 Definition run_sink (hi : bool) (c : score) (n : nat) : list (list ev * list bytes) :=
-  map (fun k => entry_write hi k c) (seq 0 n).
+  map (fun k => entry_write no_line hi k c) (seq 0 n).
 Definition model_sink (i : sx) : sx :=
   let hi := sx_bool (sx_nth i 1) in
   let c := dec_score (sx_size (sx_nth i 2)) (sx_nth i 2) in
@@ -106,18 +160,76 @@ Definition spec_sink (i o : sx) : bool :=
   sx_eqb (sx_nth o 1) (SZ 1) &&
   sx_eqb (sx_nth o 0)
     (SL (map (fun k => let errs := spec_write_errs k c ++ spec_sync_errs hi k c in
-                       SL [SL (map enc_ev (spec_events hi k c)); SL (map SB errs); SZ (if is_nil errs then 0 else 1)]) (seq 0 n))).
+                       SL [SL (map enc_ev (spec_events no_line hi k c)); SL (map SB errs); SZ (if is_nil errs then 0 else 1)]) (seq 0 n))).
+
+(* sequence case: (2 cfg ctxs core ((hi depth entry fields) ...));
+   observation: ((per entry: (events-with-bytes errors errcount)) ...) returned *)
+Definition dec_pent (s : sx) : pent :=
+  {| p_hi := sx_bool (sx_nth s 0); p_d := sx_n (sx_nth s 1); p_ent := dec_entry (sx_nth s 2); p_fs := dec_fields (sx_nth s 3) |}.
+Definition seq_cfg (i : sx) : cfg := dec_cfg (sx_nth i 1).
+Definition seq_ctxs (i : sx) : list (list fld) := map dec_fields (sx_l (sx_nth i 2)).
+Definition seq_tree (i : sx) : score := dec_score (sx_size (sx_nth i 3)) (sx_nth i 3).
+Definition seq_ents (i : sx) : list pent := map dec_pent (sx_l (sx_nth i 4)).
+Definition enc_row (r : list ev * list bytes) : sx :=
+  SL [SL (map enc_evp (fst r)); SL (map SB (snd r)); SZ (if is_nil (snd r) then 0 else 1)].
+Definition model_seq (i : sx) : sx :=
+  SL [SL (map enc_row (run_seq (seq_cfg i) (seq_ctxs i) (seq_tree i) (seq_ents i))); SZ 1].
+(* the observed sink calls of one entry against the sinks of the tree, in order: one Write per sink
+   whose bytes are the entry (ok), then a Sync iff the write succeeded and hi; nothing else *)
+Fixpoint match_events (ok : bool -> bytes -> bool) (hi : bool) (k : nat) (ls : list lf) (evs : list sx) {struct ls} : bool :=
+  match ls with
+  | [] => is_nil evs
+  | l :: r =>
+      match evs with
+      | [] => false
+      | e :: evs' =>
+          Z.eqb (sx_z (sx_nth e 0)) 0 && Z.eqb (sx_z (sx_nth e 1)) (l_id l) &&
+          (match sx_nth e 2 with SB p => ok (l_con l) p | _ => false end) &&
+          (match werr (out_at (l_outs l) k), hi with
+           | None, true =>
+               match evs' with
+               | [] => false
+               | s :: evs'' => sx_eqb s (SL [SZ 1; SZ (l_id l)]) && match_events ok hi k r evs''
+               end
+           | _, _ => match_events ok hi k r evs'
+           end)
+      end
+  end.
+Fixpoint match_rows (c : cfg) (ctxs : list (list fld)) (t : score) (k : nat) (es : list pent) (rows : list sx) {struct es} : bool :=
+  match es, rows with
+  | [], [] => true
+  | e :: es', row :: rows' =>
+      (let errs := spec_write_errs k t ++ spec_sync_errs (p_hi e) k t in
+       match_events (payload_ok c (firstn (p_d e) ctxs) (p_ent e) (p_fs e)) (p_hi e) k (leaves t) (sx_l (sx_nth row 0)) &&
+       sx_eqb (sx_nth row 1) (SL (map SB errs)) &&
+       sx_eqb (sx_nth row 2) (SZ (if is_nil errs then 0 else 1))) &&
+      match_rows c ctxs t (S k) es' rows'
+  | _, _ => false
+  end.
+(* oracle: per entry of the sequence, every sink receives the entry intact exactly once in order,
+   the reported errors are exactly that entry's failures, and every call returned *)
+Definition spec_seq (i o : sx) : bool :=
+  sx_eqb (sx_nth o 1) (SZ 1) &&
+  match_rows (seq_cfg i) (seq_ctxs i) (seq_tree i) 0 (seq_ents i) (sx_l (sx_nth o 0)).
 
 Definition model (i : sx) : sx :=
   match sx_z (sx_nth i 0) with
   | 0%Z => match C02.Model.model (sx_nth i 1) with SL (x :: _) => SL [x] | y => y end
-  | _ => model_sink i
+  | 1%Z => model_sink i
+  | _ => model_seq i
   end.
 Definition spec (i o : sx) : bool :=
   match sx_z (sx_nth i 0) with
   | 0%Z => C02.Model.spec_line (sx_nth i 1) o
-  | _ => spec_sink i o
+  | 1%Z => spec_sink i o
+  | _ => spec_seq i o
   end.
 
+(* assumption monitors on the oracle values the case carries *)
+Definition wf_pent (e : pent) : bool := wf_flds (p_fs e) && wf_entry (p_ent e).
 Definition wf (i : sx) : bool :=
-  match sx_z (sx_nth i 0) with 0%Z => C02.Model.wf (sx_nth i 1) | _ => true end.
+  match sx_z (sx_nth i 0) with
+  | 0%Z => C02.Model.wf (sx_nth i 1)
+  | 1%Z => true
+  | _ => forallb wf_flds (seq_ctxs i) && forallb wf_pent (seq_ents i)
+  end.
